@@ -469,7 +469,7 @@ func runSFTP(c *harness.Ctx, sc scenario, s, slot int) {
 	// one connection: one server process, so "the k-th close" is well defined
 	st, err := desync.NewSFTPStore(u, desync.StoreOptions{N: 1, Uncompressed: uncompressed})
 	if err != nil {
-		c.Inconclusive("sftp shim: %v", err)
+		c.Skip("sftp shim: %v", err)
 		return
 	}
 	switch what {
